@@ -1,6 +1,7 @@
 #!/usr/bin/env python3
 """C04 hook: adds to <outdir>/overlay.json one NEW file per curve package (ecc/<curve>/verif_c04_shim.go, build tag
-`verif`) that exports thin wrappers around the unexported partitionScalars / computeNbChunks / lastC and around
+`verif`) that exports thin wrappers around the unexported partitionScalars / computeNbChunks / lastC / _innerMsmG1 /
+_innerMsmG2 (the body of MultiExp below the choice of the window: the window c is the caller's) and around
 internal/parallel.Execute.  Nothing is written into /repo; the wrappers only call the existing functions.
 Run after hooks/mkoverlay.py:  mkoverlay_c04.py <repo> <outdir>
 """
@@ -16,6 +17,7 @@ import (
 	"sort"
 	"sync"
 
+	"github.com/consensys/gnark-crypto/ecc"
 	"github.com/consensys/gnark-crypto/ecc/%(dir)s/fr"
 	"github.com/consensys/gnark-crypto/internal/parallel"
 )
@@ -41,7 +43,29 @@ func VerifExecuteRanges(n int, maxCpus ...int) [][2]int {
 	sort.Slice(out, func(i, j int) bool { return out[i][0] < out[j][0] })
 	return out
 }
+
+// VerifInnerMsmG1 runs _innerMsmG1 (partitionScalars, chunk statistics, chunk processors, reduction) with the window c.
+func VerifInnerMsmG1(c uint64, points []G1Affine, scalars []fr.Element, nbTasks int) G1Affine {
+	var p G1Jac
+	_innerMsmG1(&p, c, points, scalars, ecc.MultiExpConfig{NbTasks: nbTasks})
+	var res G1Affine
+	res.FromJacobian(&p)
+	return res
+}
 '''
+
+TEMPLATE_G2 = '''
+// VerifInnerMsmG2 runs _innerMsmG2 with the window c.
+func VerifInnerMsmG2(c uint64, points []G2Affine, scalars []fr.Element, nbTasks int) G2Affine {
+	var p G2Jac
+	_innerMsmG2(&p, c, points, scalars, ecc.MultiExpConfig{NbTasks: nbTasks})
+	var res G2Affine
+	res.FromJacobian(&p)
+	return res
+}
+'''
+
+SIG = "func _innerMsmG%d(p *G%dJac, c uint64, points []G%dAffine, scalars []fr.Element, config ecc.MultiExpConfig) *G%dJac"
 
 def main(repo, outdir):
     os.makedirs(outdir, exist_ok=True)
@@ -60,7 +84,17 @@ def main(repo, outdir):
         if not m or "func partitionScalars(scalars []fr.Element, c uint64, nbTasks int) ([]uint16, []chunkStat)" not in s:
             print("mkoverlay_c04: partitionScalars signature not recognised in " + src, file=sys.stderr)
             return 1
-        txt = TEMPLATE % {"pkg": m.group(1), "dir": c}
+        if SIG % (1, 1, 1, 1) not in s:
+            print("mkoverlay_c04: _innerMsmG1 signature not recognised in " + src, file=sys.stderr)
+            return 1
+        has_g2 = "func _innerMsmG2(" in s
+        if has_g2 and SIG % (2, 2, 2, 2) not in s:
+            print("mkoverlay_c04: _innerMsmG2 signature not recognised in " + src, file=sys.stderr)
+            return 1
+        if has_g2 != os.path.exists(os.path.join(d, "g2.go")):
+            print("mkoverlay_c04: g2.go / _innerMsmG2 mismatch in " + d, file=sys.stderr)
+            return 1
+        txt = TEMPLATE % {"pkg": m.group(1), "dir": c} + (TEMPLATE_G2 if has_g2 else "")
         dst = os.path.join(outdir, "verif_c04_%s.go" % c.replace("-", "_"))
         if not (os.path.exists(dst) and open(dst).read() == txt):
             open(dst, "w").write(txt)
